@@ -62,21 +62,25 @@ def run(ctx):
     # very first delete, the finished seed must already be in the WARC
     modes.append("big+kill:lq.delete:1")
     modes.append("big503+kill:lq.delete:1")
+    # a graceful stop while the first attempt of a URL is in flight; the attempt is cut after the stop began, the retry
+    # would succeed (the worker hands a finished seed on only every other time: several cases)
+    modes += ["flaky+stop:req:1"] * (3 if quick else 8)
     if ctx.replay:
         modes = []
     from concurrent.futures import ThreadPoolExecutor
     results = []
     with ThreadPoolExecutor(max_workers=8) as ex:
-        futs = {ex.submit(two_runs, ctx, "m%d" % i, m, *((3, 1) if m.startswith("big") else (8, 2))): m for i, m in enumerate(modes)}
+        futs = {ex.submit(two_runs, ctx, "m%d" % i, m, *((3, 1) if m.startswith("big") or m.startswith("flaky") else (8, 2))): m for i, m in enumerate(modes)}
         for f in futs:
             try:
                 results.append((futs[f],) + f.result())
             except subprocess.TimeoutExpired:
                 raise vf.Inconclusive("a pipeline run of case %s timed out" % futs[f])
     traces = []
-    for mode, p1, p2, t1, t2 in results:
+    for ri, (mode, p1, p2, t1, t2) in enumerate(results):
         if not os.path.exists(t1) or not os.path.exists(t2):
             raise vf.Inconclusive("case %s produced no trace" % mode)
+        mode = "%s#%d" % (mode, ri) if mode.startswith("flaky") else mode     # the same case may run several times
         cat = os.path.join(ctx.scratch, "cat-%s.ndjson" % mode.replace(":", "_"))
         with open(cat, "w") as out:
             out.write(open(t1).read())
@@ -92,13 +96,13 @@ def run(ctx):
         if not any(e["ev"] == "run.end" for e in events):
             ctx.report("the restarted crawler died (%s): %s" % (mode, " ".join((err2 or "").split())[-300:]), replay_src=cat, tag="crash", key="restarted process died")
             continue
-        impl = ctx.validate("TraceC04", "C04_trace.cfg", cat, name="impl-" + mode.replace(":", "_").replace("+", "_"))
+        impl = ctx.validate("TraceC04", "C04_trace.cfg", cat, name="impl-" + mode.replace(":", "_").replace("+", "_").replace("#", "_"))
         nimpl += 1
         if impl["hwm"] < impl["total"] or "ModelInvariants is violated" in impl["out"]:
             ctx.note_drift("case %s: event %d (%s) is not a step of LocalQueue.tla" % (mode, impl["hwm"] + 1, events[min(impl["hwm"], len(events) - 1)]["ev"]), cat)
         for dft in impl["drift"][:3]:
             ctx.note_drift("case %s: %s differ from the model's rows" % (mode, dft["why"]), cat)
-        mon = ctx.validate("C04_Mon", "C04_mon.cfg", cat, name="mon-" + mode.replace(":", "_").replace("+", "_"))
+        mon = ctx.validate("C04_Mon", "C04_mon.cfg", cat, name="mon-" + mode.replace(":", "_").replace("+", "_").replace("#", "_"))
         if mon["hwm"] < mon["total"]:
             raise vf.Inconclusive("C04_Mon stopped at line %d of %d" % (mon["hwm"], mon["total"]))
         phase2 = False
